@@ -719,6 +719,348 @@ theorem simAt (n : Nat) : SimAt n := by
     | succ n => exact simAt_succ (fun k hk => ih k (by omega))
 
 
+/-! ### simulation, direction optimised (tco on, fuel `m`) ⟶ reference (tco off, fuel `phi m`) -/
+
+/-- fuel that suffices for the reference run when the optimised run needs `m`: `m (m + 7) / 2` -/
+def phi : Nat → Nat
+  | 0 => 0
+  | m + 1 => phi m + m + 4
+
+theorem phi_succ (m : Nat) : phi (m + 1) = phi m + m + 4 := rfl
+
+/-- a finished, ordinary outcome: neither out of fuel nor a tail call -/
+def Res.isFin (r : Res) : Bool := !r.isOof && !r.isTail
+
+@[simp] theorem Res.isFin_val (v) : (Res.val v).isFin = true := rfl
+@[simp] theorem Res.isFin_viol (v) : (Res.viol v).isFin = true := rfl
+@[simp] theorem Res.isFin_stuck (v) : (Res.stuck v).isFin = true := rfl
+@[simp] theorem Res.isFin_tail (v) : (Res.tail v).isFin = false := rfl
+@[simp] theorem Res.isFin_oof : Res.oof.isFin = false := rfl
+
+theorem Res.isFin_iff (r : Res) : r.isFin = true ↔ r.isOof = false ∧ r.isTail = false := by
+  cases r <;> simp
+
+theorem Res.isFin_of {r : Res} (h1 : r.isOof = false) (h2 : r.isTail = false) : r.isFin = true := by
+  cases r <;> simp_all
+
+/-- the tail part: the optimised run handed back `.tail args`; whatever the reference trampoline
+makes of these arguments (with enough fuel), the reference run of the expression gives -/
+def TailB (m : Nat) (fr : Frame) (h : Nat) (args : List Val) (st1 : St) (runF : Nat → Res × St) : Prop :=
+  ∃ name c, fr.self = some (name, c) ∧
+    ∀ res N, phi m + m + 3 ≤ N → (∀ K, N ≤ K + m + 3 → tramp K cF h c args 0 st1 = res) → runF N = res
+
+structure SimB (m : Nat) : Prop where
+  eval : ∀ fr h e tail st j, FrameOk fr → (Core.eval m cT fr e tail st).1.isFin = true →
+    Core.eval (phi m + j) cF (fr.atHeight h) e tail st = Core.eval m cT fr e tail st
+  evalTail : ∀ fr h e tail st a st1, FrameOk fr → Core.eval m cT fr e tail st = (.tail a, st1) →
+    TailB m fr h a st1 (fun N => Core.eval N cF (fr.atHeight h) e tail st)
+  callNamed : ∀ fr h f args tail st j, FrameOk fr → (Core.callNamed m cT fr f args tail st).1.isFin = true →
+    Core.callNamed (phi m + j) cF (fr.atHeight h) f args tail st = Core.callNamed m cT fr f args tail st
+  callNamedTail : ∀ fr h f args tail st a st1, FrameOk fr → Core.callNamed m cT fr f args tail st = (.tail a, st1) →
+    TailB m fr h a st1 (fun N => Core.callNamed N cF (fr.atHeight h) f args tail st)
+  builtin : ∀ fr h f args tail st j, FrameOk fr → (Core.builtin m cT fr f args tail st).1.isFin = true →
+    Core.builtin (phi m + j) cF (fr.atHeight h) f args tail st = Core.builtin m cT fr f args tail st
+  builtinTail : ∀ fr h f args tail st a st1, FrameOk fr → Core.builtin m cT fr f args tail st = (.tail a, st1) →
+    TailB m fr h a st1 (fun N => Core.builtin N cF (fr.atHeight h) f args tail st)
+  callVal : ∀ fr h c args tail st j, FrameOk fr → (Core.callVal m cT fr c args tail st).1.isOof = false →
+    Core.callVal (phi m + j) cF (fr.atHeight h) c args tail st = Core.callVal m cT fr c args tail st
+  evalList : ∀ fr h es st j, FrameOk fr → exOof (Core.evalList m cT fr es st).1 = false →
+    Core.evalList (phi m + j) cF (fr.atHeight h) es st = Core.evalList m cT fr es st
+  mkClos : ∀ fr h f st j, FrameOk fr → (Core.mkClos m cT fr f st).1.isOof = false →
+    Core.mkClos (phi m + j) cF (fr.atHeight h) f st = Core.mkClos m cT fr f st
+  evalDflts : ∀ fr h ps st j, FrameOk fr → exOof (Core.evalDflts m cT fr ps st).1 = false →
+    Core.evalDflts (phi m + j) cF (fr.atHeight h) ps st = Core.evalDflts m cT fr ps st
+  callUser : ∀ h h2 c args st j, (Core.callUser m cT h2 c args st).1.isOof = false →
+    Core.callUser (phi m + j) cF h c args st = Core.callUser m cT h2 c args st
+  tramp : ∀ h h2 c args rec rec2 st j, (Core.tramp m cT h2 c args rec2 st).1.isOof = false →
+    Core.tramp (phi m + j) cF h c args rec st = Core.tramp m cT h2 c args rec2 st
+  evalDecls : ∀ fr h ds st j, FrameOk fr → exOof (Core.evalDecls m cT fr ds st).1 = false →
+    Core.evalDecls (phi m + j) cF (fr.atHeight h) ds st = setH h (Core.evalDecls m cT fr ds st)
+
+theorem SimB.evalF {m} (ih : SimB m) (fr h e st j) (hf : FrameOk fr) (hh : (Core.eval m cT fr e false st).1.isOof = false) :
+    Core.eval (phi m + j) cF (fr.atHeight h) e false st = Core.eval m cT fr e false st :=
+  ih.eval fr h e false st j hf (Res.isFin_of hh ((noTailAt cT m).eval _ _ _ _ (by simp)))
+
+theorem SimB.evalF' {m N} (ih : SimB m) (hN : phi m ≤ N) {fr h e st} (hf : FrameOk fr)
+    (hh : (Core.eval m cT fr e false st).1.isOof = false) :
+    Core.eval N cF (fr.atHeight h) e false st = Core.eval m cT fr e false st := by
+  have := ih.evalF fr h e st (N - phi m) hf hh
+  rwa [show phi m + (N - phi m) = N by omega] at this
+
+theorem SimB.evalList' {m N} (ih : SimB m) (hN : phi m ≤ N) {fr h es st} (hf : FrameOk fr)
+    (hh : exOof (Core.evalList m cT fr es st).1 = false) :
+    Core.evalList N cF (fr.atHeight h) es st = Core.evalList m cT fr es st := by
+  have := ih.evalList fr h es st (N - phi m) hf hh
+  rwa [show phi m + (N - phi m) = N by omega] at this
+
+theorem SimB.tramp' {m N} (ih : SimB m) (hN : phi m ≤ N) {h h2 c args rec rec2 st}
+    (hh : (Core.tramp m cT h2 c args rec2 st).1.isOof = false) :
+    Core.tramp N cF h c args rec st = Core.tramp m cT h2 c args rec2 st := by
+  have := ih.tramp h h2 c args rec rec2 st (N - phi m) hh
+  rwa [show phi m + (N - phi m) = N by omega] at this
+
+theorem simB_zero : SimB 0 := by
+  constructor <;> intros <;> simp_all [eval, callNamed, builtin, callVal, evalList, mkClos, evalDflts, callUser, tramp, evalDecls]
+
+theorem fuel_shape (m j : Nat) : phi (m + 1) + j = (phi m + (m + 3 + j)) + 1 := by
+  rw [phi_succ]; omega
+
+theorem simB_succ {m : Nat} (ih : SimB m) : SimB (m + 1) := by
+    constructor
+    case callVal =>
+      intro fr h c args tail st j hf hT
+      rw [fuel_shape]
+      simp only [callVal] at hT ⊢
+      repeat' split at hT
+      all_goals try (simp_all [ih.evalList]; done)
+      simp [ih.evalList, *]
+      exact ih.callUser _ _ _ _ _ _ hT
+    case evalList =>
+      intro fr h es st j hf hT
+      rw [fuel_shape]
+      simp only [evalList] at hT ⊢
+      repeat' split at hT
+      all_goals try (simp_all [ih.evalList, ih.evalF]; done)
+    case mkClos =>
+      intro fr h f st j hf hT
+      rw [fuel_shape]
+      simp only [mkClos] at hT ⊢
+      repeat' split at hT
+      all_goals try (simp_all [ih.evalDflts]; done)
+    case evalDflts =>
+      intro fr h ps st j hf hT
+      rw [fuel_shape]
+      simp only [evalDflts] at hT ⊢
+      repeat' split at hT
+      all_goals try (simp_all [ih.evalDflts, ih.evalF]; done)
+    case callUser =>
+      intro h h2 c args st j hT
+      rw [fuel_shape]
+      simp only [callUser] at hT ⊢
+      repeat' split at hT
+      all_goals try (simp_all; done)
+      simp
+      exact ih.tramp _ _ _ _ _ _ _ _ hT
+    case evalDecls =>
+      intro fr h ds st j hf hT
+      rw [fuel_shape]
+      simp only [evalDecls] at hT ⊢
+      repeat' split at hT
+      all_goals try (simp_all [ih.evalF, ih.mkClos]; done)
+      all_goals (
+        simp [ih.evalF, ih.mkClos, *]
+        exact ih.evalDecls { env := _ :: fr.env, self := fr.self, height := fr.height } h _ _ _ hf hT)
+    case callNamed =>
+      intro fr h f args tail st j hf hT
+      rw [fuel_shape]
+      simp only [callNamed] at hT ⊢
+      simp only [Frame.atHeight_get]
+      repeat' split at hT
+      · simp_all [ih.callVal, Res.isFin_iff]
+      · simp_all [ih.builtin]
+    case builtin =>
+      intro fr h f args tail st j hf hT
+      rw [fuel_shape]
+      simp only [builtin] at hT ⊢
+      repeat' split at hT
+      all_goals try (simp_all [ih.evalF, ih.evalList, Res.isFin_iff]; done)
+      all_goals (simp [ih.evalF, *]; exact ih.eval _ _ _ _ _ _ hf (by simp_all))
+    case builtinTail =>
+      intro fr h f args tail st a st1 hf hT
+      have nt := noTailAt cT m
+      simp only [builtin] at hT
+      repeat' split at hT
+      all_goals first
+        | (simp at hT; done)
+        | exact (tail_contra hT (nt.eval _ _ false _ (by simp))).elim
+        | (cases hT; exact absurd (nt.evalList' (by assumption)) (by simp))
+        | exact (prim_ne_tail hT).elim
+        | skip
+      all_goals (
+        obtain ⟨name, c, hs, hcont⟩ := ih.evalTail _ h _ _ _ _ _ hf hT
+        refine ⟨name, c, hs, fun res N hN hK => ?_⟩
+        rw [phi_succ] at hN
+        obtain ⟨N', rfl⟩ : ∃ N', N = N' + 1 := ⟨N - 1, by omega⟩
+        simp only [builtin]
+        rw [ih.evalF' (N := N') (by omega) hf (by simp [*])]
+        simp only [*]
+        first
+          | exact hcont res N' (by omega) (fun K hK' => hK K (by omega))
+          | (simp only [if_true, if_false, Bool.false_eq_true]; exact hcont res N' (by omega) (fun K hK' => hK K (by omega))))
+    case callNamedTail =>
+      intro fr h f args tail st a st1 hf hT
+      have nt := noTailAt cT m
+      simp only [callNamed] at hT
+      split at hT
+      · exact (tail_contra hT (nt.callVal _ _ _ _ _)).elim
+      · rename_i hget
+        obtain ⟨name, c, hs, hcont⟩ := ih.builtinTail _ h _ _ _ _ _ _ hf hT
+        refine ⟨name, c, hs, fun res N hN hK => ?_⟩
+        rw [phi_succ] at hN
+        obtain ⟨N', rfl⟩ : ∃ N', N = N' + 1 := ⟨N - 1, by omega⟩
+        simp only [callNamed, Frame.atHeight_get, hget]
+        exact hcont res N' (by omega) (fun K hK' => hK K (by omega))
+    case evalTail =>
+      intro fr h e tail st a st1 hf hT
+      have nt := noTailAt cT m
+      simp only [eval] at hT
+      repeat' split at hT
+      all_goals first
+        | (simp at hT; done)
+        | exact (tail_contra hT (nt.mkClos _ _ _)).elim
+        | exact (tail_contra hT (nt.callVal _ _ _ _ _)).elim
+        | exact (tail_contra hT (nt.eval _ _ false _ (by simp))).elim
+        | (cases hT; exact absurd (nt.evalList' (by assumption)) (by simp))
+        | skip
+      · rename_i _ f args _ name c hs h1 h2 _ vs st' hl
+        simp only [Prod.mk.injEq, Res.tail.injEq] at hT
+        obtain ⟨rfl, rfl⟩ := hT
+        obtain ⟨fn, d, e, rfl⟩ := hf name c hs
+        refine ⟨name, _, hs, fun res N hN hK => ?_⟩
+        rw [phi_succ] at hN
+        obtain ⟨N', rfl⟩ : ∃ N', N = N' + 3 := ⟨N - 3, by omega⟩
+        simp only [Bool.and_eq_true, cT_tco, and_true] at h2
+        subst h2
+        simp only [eval, Frame.atHeight_self, Frame.atHeight_env, hs, h1, if_true, cF_tco, Bool.and_false,
+          Bool.false_eq_true, if_false, callVal]
+        rw [ih.evalList' (N := N' + 1) (by omega) hf (by simp [hl]), hl]
+        simp only [callUser, (firstErr_none_iff vs).mpr (evalList_ok_noErr _ _ _ _ _ _ _ hl), cF_call,
+          Frame.atHeight_height]
+        exact hK N' (by omega)
+      · rename_i _ f args _ name c hs h1
+        obtain ⟨name', c', hs', hcont⟩ := ih.callNamedTail _ h _ _ _ _ _ _ hf hT
+        refine ⟨name', c', hs', fun res N hN hK => ?_⟩
+        rw [phi_succ] at hN
+        obtain ⟨N', rfl⟩ : ∃ N', N = N' + 1 := ⟨N - 1, by omega⟩
+        simp only [eval, Frame.atHeight_self, Frame.atHeight_env, hs, h1]
+        exact hcont res N' (by omega) (fun K hK' => hK K (by omega))
+      · rename_i _ f args _ hs
+        obtain ⟨name', c', hs', hcont⟩ := ih.callNamedTail _ h _ _ _ _ _ _ hf hT
+        refine ⟨name', c', hs', fun res N hN hK => ?_⟩
+        rw [phi_succ] at hN
+        obtain ⟨N', rfl⟩ : ∃ N', N = N' + 1 := ⟨N - 1, by omega⟩
+        simp only [eval, Frame.atHeight_self, hs]
+        exact hcont res N' (by omega) (fun K hK' => hK K (by omega))
+    case eval =>
+      intro fr h e tail st j hf hT
+      rw [fuel_shape]
+      cases e
+      case call f args =>
+        simp only [eval] at hT ⊢
+        simp only [Frame.atHeight_self, Frame.atHeight_env, cT_tco, cF_tco, Bool.and_true, Bool.and_false] at hT ⊢
+        cases hs : fr.self with
+        | none => simp only [hs] at hT ⊢; exact ih.callNamed _ _ _ _ _ _ _ hf hT
+        | some p =>
+          obtain ⟨name, c⟩ := p
+          simp only [hs] at hT ⊢
+          by_cases h1 : (decide (f = name) && (lookup f fr.env).isNone) = true
+          · simp only [h1, if_true] at hT ⊢
+            cases tail with
+            | false =>
+              simp only [Bool.false_eq_true, if_false] at hT ⊢
+              exact ih.callVal _ _ _ _ _ _ _ hf ((Res.isFin_iff _).mp hT).1
+            | true =>
+              simp only [if_true, Bool.false_eq_true, if_false] at hT ⊢
+              obtain ⟨fn, d, e, rfl⟩ := hf name c hs
+              rcases hl : evalList m cT fr args st with ⟨x, st'⟩
+              rw [hl] at hT
+              cases x with
+              | ok vs => simp at hT
+              | error r =>
+                simp only at hT ⊢
+                rw [show phi m + (m + 3 + j) = (phi m + (m + 2 + j)) + 1 by omega]
+                simp only [callVal]
+                rw [ih.evalList _ _ _ _ _ hf (by rw [hl]; exact ((Res.isFin_iff _).mp hT).1), hl]
+          · simp only [h1] at hT ⊢; exact ih.callNamed _ _ _ _ _ _ _ hf hT
+      all_goals simp only [eval] at hT ⊢
+      all_goals repeat' split at hT
+      all_goals (simp_all [ih.evalF, ih.mkClos, ih.evalList, ih.callVal, Res.isFin_iff]; done)
+    case tramp =>
+      intro h h2 c args rec rec2 st j hT
+      rw [fuel_shape]
+      cases c
+      case clos f d env =>
+        simp only [tramp, cT_depth, cF_depth, cT_rec, cF_rec, Bool.false_eq_true, if_false] at hT ⊢
+        cases hb : bindParams f.params args d with
+        | none => simp
+        | some ps =>
+          simp only [hb] at hT ⊢
+          suffices key : ∀ self : Option (String × Val), (∀ name c, self = some (name, c) → c = Val.clos f d env) →
+              (match evalDecls m cT { env := ps.reverse ++ env, self := self, height := h2 + 1 } f.decls st with
+                | (Except.error r, st') => (r, st')
+                | (Except.ok fr', st') =>
+                  match eval m cT fr' f.body true st' with
+                  | (Res.tail newArgs, st'') => tramp m cT h2 (Val.clos f d env) newArgs (rec2 + 1) st''
+                  | r => r).fst.isOof = false →
+              (match evalDecls (phi m + (m + 3 + j)) cF { env := ps.reverse ++ env, self := self, height := h + 1 } f.decls st with
+                | (Except.error r, st') => (r, st')
+                | (Except.ok fr', st') =>
+                  match eval (phi m + (m + 3 + j)) cF fr' f.body true st' with
+                  | (Res.tail newArgs, st'') => tramp (phi m + (m + 3 + j)) cF h (Val.clos f d env) newArgs (rec + 1) st''
+                  | r => r) =
+              (match evalDecls m cT { env := ps.reverse ++ env, self := self, height := h2 + 1 } f.decls st with
+                | (Except.error r, st') => (r, st')
+                | (Except.ok fr', st') =>
+                  match eval m cT fr' f.body true st' with
+                  | (Res.tail newArgs, st'') => tramp m cT h2 (Val.clos f d env) newArgs (rec2 + 1) st''
+                  | r => r) by
+            refine key _ ?_ hT
+            intro name c hs
+            split at hs
+            · cases hs; rfl
+            · cases hs
+          clear hT
+          intro self hself' hT
+          have hfok : FrameOk { env := ps.reverse ++ env, self := self, height := h2 + 1 } := by
+            intro name c hs
+            exact ⟨_, _, _, hself' name c hs⟩
+          have hx : exOof (evalDecls m cT { env := ps.reverse ++ env, self := self, height := h2 + 1 } f.decls st).1 = false := by
+            revert hT
+            rcases evalDecls m cT { env := ps.reverse ++ env, self := self, height := h2 + 1 } f.decls st with ⟨r, s⟩
+            cases r <;> simp
+          have e1 := ih.evalDecls { env := ps.reverse ++ env, self := self, height := h2 + 1 } (h + 1) f.decls st (m + 3 + j) hfok hx
+          change evalDecls _ cF { env := ps.reverse ++ env, self := self, height := h + 1 } f.decls st = _ at e1
+          rw [e1]
+          rcases hd : evalDecls m cT { env := ps.reverse ++ env, self := self, height := h2 + 1 } f.decls st with ⟨x, st'⟩
+          rw [hd] at hT
+          cases x with
+          | error r => rfl
+          | ok fr' =>
+            simp only [setH_ok] at hT ⊢
+            obtain ⟨hs', hh'⟩ := evalDecls_frame _ _ _ _ _ _ _ hd
+            simp only at hs' hh'
+            have hfok' : FrameOk fr' := by intro name c hs; rw [hs'] at hs; exact hfok name c hs
+            rcases hevT : eval m cT fr' f.body true st' with ⟨rT, sT⟩
+            rw [hevT] at hT
+            cases rT
+            case tail a =>
+              simp only at hT ⊢
+              obtain ⟨name, c', hsf, hcont⟩ := ih.evalTail fr' (h + 1) f.body true st' a sT hfok' hevT
+              rw [hs'] at hsf
+              have hc := hself' name c' hsf
+              subst hc
+              have e2 : eval (phi m + (m + 3 + j)) cF (fr'.atHeight (h + 1)) f.body true st'
+                  = tramp m cT h2 (Val.clos f d env) a (rec2 + 1) sT :=
+                hcont _ _ (by omega) (fun K hK => ih.tramp' (by omega) hT)
+              rw [e2]
+              have hnt := (noTailAt cT m).tramp h2 (Val.clos f d env) a (rec2 + 1) sT
+              revert hnt
+              generalize tramp m cT h2 (Val.clos f d env) a (rec2 + 1) sT = x
+              obtain ⟨r, s⟩ := x
+              intro hnt
+              cases r <;> first | rfl | (simp at hnt)
+            case oof => simp at hT
+            all_goals (
+              simp only at hT ⊢
+              rw [ih.eval fr' (h + 1) f.body true st' (m + 3 + j) hfok' (by rw [hevT]; rfl), hevT])
+      all_goals simp [tramp]
+
+theorem simB (m : Nat) : SimB m := by
+  induction m with
+  | zero => exact simB_zero
+  | succ m ih => exact simB_succ ih
+
+
 /-! ### the running example: `fn f(n, acc) { if(n == 0, acc, f(n - 1, acc + n)) }` -/
 
 def sumBody : Expr :=
